@@ -96,7 +96,9 @@ def validate(traces, rep: Report, prop: str, *, nshards=None):
         tid, t, clause, detail = v[0], v[1], v[2], v[3] if len(v) > 3 else None
         own = owner_of(clause, detail)
         owners[own] += 1
-        if own != prop:
+        # a container that never finishes its suspension also never reaches its one outcome (C09)
+        also = {"conf.C10.lists": {"C09"}, "C10.SuspLeftPositive": {"C09"}}.get(clause, set())
+        if own != prop and prop not in also:
             continue
         tr = by_tid.get(tid, [])
         meta = (tr[0].get("meta") if tr else {}) or {}
